@@ -37,8 +37,14 @@ def slice_bounds(start, stop, step, n):
     return lo, step, simp(length) if is_z3(length) else length
 
 
+NONNEG_ORACLE = [None]     # set by the engine: callable(index term) -> True when the index is provably >= 0
+
+
 def norm_index(i, n):
     """python index normalisation (negative wraps once). returns (index, in_bounds_condition)"""
+    if not is_conc_num(i) and NONNEG_ORACLE[0] is not None and NONNEG_ORACLE[0](i):
+        i = to_int(i)
+        return i, s_lt(i, n)
     if is_conc_num(i):
         if i < 0:
             j = s_add(n, i)
